@@ -15,6 +15,7 @@ The model is `Pose/Model/Batch.lean`; `Pose/Gen/*.lean` are regenerated from `/r
 Not covered by an item-wise THEOREM (they do not go through the modelled `binop` site; batched = item-wise is decided for them by
 the `regime` / `unary` / `large` streams against the same call on single items): `matrix`, `Jr`, `euler`, `rotation` /
 `translation` / `scale`, the conversions of `convert.py`, `cumops` (C12).  `Retr` and the algebra's `add` are covered below.
+Views: slices, `select` and `expand` have theorems (section "views are transparent"); `permute` / `transpose` views do not.
 -/
 namespace PP.Batch
 
@@ -498,6 +499,74 @@ module-level tensor constant — also not through a helper that returns such an 
 theorem shared_state_clean :
     (∀ c ∈ PP.Gen.cachedFunctions, c ∈ reviewedCaches) ∧ PP.Gen.sharedStateWrites = [] ∧
     (∀ d ∈ PP.Gen.mutableDefaults, d ∈ reviewedDefaults) := by decide
+
+/-! ## views are transparent (pass 7)
+
+An operand that is a VIEW reaches the op as base storage + offset + strides (`View`); every op site first calls `.contiguous()`
+(`broadcast_inputs`: `expand(...).reshape(-1, d).contiguous()`).  The theorems: `.contiguous()` of ANY view holds exactly the viewed
+items in row-major order; torch's stride rules for slices (`X[a:b:c]`, `narrow`), `select` (`X[k]`) and `expand` address exactly the
+items the index maps of the shape-only functions (`Step.index`, `proj`) name.  So an op on such a view is the op on the gathered
+items, to which `broadcast_itemwise` etc. apply.  NOT covered by a theorem: `permute` / `transpose` views (stride permutation) — the
+harness's `perm` view layout stays a correspondence check. -/
+
+/-- a contiguous tensor, addressed through its own row-major strides, is itself -/
+theorem view_of_contiguous {α : Type} (t : T α) (i : List Nat) (h : inb t.shape i) : (View.ofT t).get i = t.get i :=
+  view_ofT_get' t i h
+
+/-- **`.contiguous()` is transparent**: for every view (any base, offset, strides — overlapping or not) the contiguous copy holds at
+every valid multi-index the item the view addresses there -/
+theorem contiguous_of_view {α : Type} (v : View α) (i : List Nat) (h : inb v.shape i) : v.contiguous.get i = v.get i :=
+  view_contiguous_get' v i h
+
+/-- round trip: view of a contiguous tensor, made contiguous again, is the tensor (every flat position) -/
+theorem contiguous_roundtrip {α : Type} (t : T α) (k : Nat) (h : k < numel t.shape) : (View.ofT t).contiguous.data k = t.data k :=
+  contiguous_ofT' t k h
+
+/-- **slices are index maps**: the view `v[..., start::step, ...]` (offset `+ start·stride`, stride `·step`) addresses at `i` the item
+`v` addresses at `i` with position `i[dim]` replaced by `start + i[dim]·step` — exactly `Step.index dim [start, start+step, …]` -/
+theorem view_slice {α : Type} (v : View α) (dim start step len : Nat) (i : List Nat) (h : i.length = v.strides.length) :
+    (v.slice dim start step len).get i = v.get (i.modify dim (fun j => start + j * step)) := by
+  have := dot_slice start step dim i v.strides h
+  simp only [View.slice, View.get]
+  congr 1
+  omega
+
+/-- `select` (an integer index): the dimension disappears, the item is the one at `idx` there -/
+theorem view_select {α : Type} (v : View α) (dim idx : Nat) (i : List Nat) (hd : dim < v.strides.length)
+    (h : i.length + 1 = v.strides.length) : (v.select dim idx).get i = v.get (i.insertIdx dim idx) := by
+  have := dot_select idx dim i v.strides hd h
+  simp only [View.select, View.get]
+  congr 1
+  omega
+
+/-- **`expand` views are the broadcasting projection**: stride 0 on new / expanded dimensions addresses the item at `proj shape i` —
+the same projection `broadcast_itemwise` pairs operands with -/
+theorem view_expand {α : Type} (v : View α) (s' : Shape) (i : List Nat) (hi : i.length = s'.length) :
+    (v.expand s').get i = v.get (proj v.shape i) := by
+  simp only [View.expand, View.get, proj, dot_replicate_zero, dot_expandEq, hi]
+
+/-- the chain the harness exercises: a slice of a contiguous tensor, made contiguous for the op, holds the items of the tensor at the
+sliced positions (whenever those positions exist in `x`) -/
+theorem slice_then_contiguous {α : Type} (x : T α) (dim start step len : Nat) (i : List Nat)
+    (hi : inb (x.shape.set dim len) i) (hx : inb x.shape (i.modify dim (fun j => start + j * step))) :
+    ((View.ofT x).slice dim start step len).contiguous.get i = x.get (i.modify dim (fun j => start + j * step)) := by
+  have hlen : i.length = (View.ofT x).strides.length := by
+    have h1 := inb_length hx
+    have h2 : (cstrides x.shape).length = x.shape.length := by
+      generalize x.shape = s
+      induction s with
+      | nil => rfl
+      | cons _ _ ih => simp [cstrides, ih]
+    simp [View.ofT, h2] at h1 ⊢
+    exact h1
+  rw [contiguous_of_view _ _ (by simpa [View.slice, View.ofT] using hi), view_slice _ _ _ _ _ _ hlen, view_of_contiguous _ _ hx]
+
+/-! non-vacuity: `x` of lshape (4, 3) with items numbered row-major; `x[1::2]` at (1, 2) is item (3, 2) = 11; `x[:, 1]` at (2) is item
+(2, 1) = 7; a (1, 3) tensor expanded to (2, 2, 3) at (1, 1, 2) is item (0, 2) = 2 -/
+example : (((View.ofT (⟨[4, 3], id⟩ : T Nat)).slice 0 1 2 2).contiguous.get [1, 2]) = 11 := by decide
+example : inb ([4, 3].set 0 2) [1, 2] ∧ inb [4, 3] ([1, 2].modify 0 (fun j => 1 + j * 2)) := by simp [inb, List.modify]
+example : (((View.ofT (⟨[4, 3], id⟩ : T Nat)).select 1 1).contiguous.get [2]) = 7 := by decide
+example : (((View.ofT (⟨[1, 3], id⟩ : T Nat)).expand [2, 2, 3]).contiguous.get [1, 1, 2]) = 2 := by decide
 
 /-! ## `retain_ltype` / `func.jacrev`
 
